@@ -678,11 +678,12 @@ var c9Windows = []int64{1000, 5000, 60000}
 
 func TestC09(t *testing.T) {
 	r := kit.Start(t, "C09", "exploration")
-	r.Rule("history = PRNG op script over an explicit block tree driven against the real TimeValidityWindow (+EMap): propose+verify a block on the accepted tip or any processing block (forks, preference flips) with fresh containers, containers re-included from in-window ancestors, containers known from other branches, in-block duplicates (expiry always a whole second in [block ts, block ts+window] as C10 requires); consensus accepts a child of the last accepted block and rejects the other branches; window.Accept lags behind (0..6 blocks); the chain index is pruned as deep as the window assumption allows; restart at any retained accepted height (NewTimeValidityWindow over the surviving index); state sync onto an accepted block followed by AcceptHistorical backfill interleaved with forward accepts. Windows {1 s, 5 s, 60 s}; timestamp steps 0, 1 ms .. 2 windows, blocks placed exactly one window after an ancestor. Oracle walks ancestors in the model: a block with an in-block duplicate or a container of an ancestor with ts >= block ts - window must be rejected by VerifyExpiryReplayProtection and every such container must be flagged by IsRepeat. Concurrent part (40% of the histories): window.Accept(B) of a block with containers runs on its own goroutine while a child of the accepted tip or of a processing block (all descend from B; B within the child's window, expiry valid for the child, the repeated container at any position among 0..3 fresh ones) is verified on another: 'hook' = B.GetContainers(), called from inside Accept, releases the verifier and lingers 1..1024 scheduler yields (never waits for it); 'stress' = 3 verifiers x 6..32 Verify+IsRepeat probes (each keeps going until it saw Accept return) while Accept starts after 0..9 probes. B is an ancestor at every instant, so every probe must be rejected and flagged whatever the interleaving; both goroutines joined with a deadlock witness. Non-trivial = the history contains at least one block repeating an in-window ancestor's container; distinct = distinct op-script shape (op kinds, parent depth, container count, lag, repeat class, concurrent-case parameters).")
+	r.Rule("history = PRNG op script over an explicit block tree driven against the real TimeValidityWindow (+EMap): propose+verify a block on the accepted tip or any processing block (forks, preference flips) with fresh containers, containers re-included from in-window ancestors, containers known from other branches, in-block duplicates (expiry always a whole second in [block ts, block ts+window] as C10 requires); consensus accepts a child of the last accepted block and rejects the other branches; window.Accept lags behind (0..6 blocks); the chain index is pruned as deep as the window assumption allows; restart at any retained accepted height (NewTimeValidityWindow over the surviving index); state sync onto an accepted block followed by AcceptHistorical backfill interleaved with forward accepts. Windows {1 s, 5 s, 60 s}; timestamp steps 0, 1 ms .. 2 windows, blocks placed exactly one window after an ancestor. Oracle walks ancestors in the model: a block with an in-block duplicate or a container of an ancestor with ts >= block ts - window must be rejected by VerifyExpiryReplayProtection and every such container must be flagged by IsRepeat. Concurrent part (40% of the histories): window.Accept(B) of a block with containers runs on its own goroutine while a child of the accepted tip or of a processing block (all descend from B; B within the child's window, expiry valid for the child, the repeated container at any position among 0..3 fresh ones) is verified on another: 'hook' = B.GetContainers(), called from inside Accept, releases the verifier and lingers 1..1024 scheduler yields (never waits for it); 'stress' = 3 verifiers x 6..32 Verify+IsRepeat probes (each keeps going until it saw Accept return) while Accept starts after 0..9 probes. B is an ancestor at every instant, so every probe must be rejected and flagged whatever the interleaving; both goroutines joined with a deadlock witness. Non-trivial = the history contains at least one block repeating an in-window ancestor's container; distinct = distinct op-script shape (op kinds, parent depth, container count, lag, repeat class, concurrent-case parameters). VM-level part (c09vm_test.go; 2..3 networks quick, 10..14 thorough, each in its own child process of the test binary): a vm/vmtest TestNetwork of real VMs (chaintest.TestAction, ed25519 auth, window 60 s or 120 s) in which one node executes every block from genesis (3..8 hand-built blocks of 1..3 transactions, verified and accepted on every VM), a second node joins through dynamic state sync (GetLastStateSummary / ParseStateSummary / Accept, chain kept moving 1..3 blocks per round until SyncClient.Wait returns, SetState Bootstrapping+NormalOp, HealthCheck), 1..7 more blocks are accepted, optionally one block is left verified-but-not-accepted, and one of the two nodes (PRNG) is finally restarted from its disk directory. Every node in normal operation is offered a hand-built child (chain.NewStatelessBlock: parent id/root, height+1, ts = max(now, parent ts)) of its preferred block that carries, at a PRNG position among 0..3 fresh transactions, a transaction accepted before the sync point / while the sync ran / after the node reached normal operation / sitting in the still-processing parent / occurring twice in the block itself: Verify must fail with chain.ErrDuplicateTx whenever the recorded data say the ancestor's timestamp is >= block ts - window and the expiry is valid for the block, and the control block (same block, a fresh transaction in its place) must verify and execute, otherwise the probe is not judged. Builder clause: the repeated transaction is put straight into the node's mempool next to a fresh one; the block the node builds must not contain it. Distinct VM cases = (route, where the repeated transaction sits, block size, position, blocks/txs-per-block/minBlocks/window of the network).")
 	r.Assume("only the stated direction (repeat => rejected/flagged) is asserted; spurious rejections are counted, not judged",
 		"the chain index holds every accepted block within one window of the restart head plus one older block (the assumption documented on TimeValidityWindow); verification is not judged while a state-sync backfill is incomplete",
 		"consensus only verifies children of the last accepted block or of processing blocks, timestamps never decrease along a chain, genesis carries no containers",
 		"generic emap.Item containers stand in for chain.Transaction (the window only uses GetID/GetExpiry)",
+		"VM-level part: a network whose setup does not complete (vmtest require failing, state sync not finishing within the 60 s watchdog, child process dying or hanging) is counted (vm_network_setup_failure_*), retried once and otherwise skipped - never judged; the run is inconclusive if no genesis-route or no state-synced node could be judged at all. Blocks are hand-built instead of going through the VM's builder because back-to-back builds on one VM can drop the submitted transaction or deadlock between Mempool.StartStreaming and the asynchronous FinishStreaming of the previous build (what makes the repository's own state-sync tests flaky); the builder is only used once per node, for the builder clause. The in-process restart disables the (optional) indexer extension, whose database Shutdown does not close",
 		"concurrent part: one accepter goroutine (window.Accept is only called from the async accepter) against verifier/builder goroutines; interleavings are those the Go scheduler produces under the GetContainers linger / the stress start offset, not an enumeration")
 	r.Extra("windows_ms", c9Windows)
 
